@@ -25,7 +25,7 @@ import time
 
 VERIF = os.path.dirname(os.path.dirname(os.path.abspath(__file__)))
 WORK = os.path.join(VERIF, ".work")
-REPO = "/repo"
+REPO = os.environ.get("VERIF_REPO", "/repo")
 PY = "python3-vt"
 sys.path.insert(0, VERIF)
 from tools.props import PROPS  # noqa: E402
